@@ -21,12 +21,14 @@ inductive H5 where
   | dset (v : DsetVal)
   deriving Repr, Inhabited
 
-def bytesLE : List UInt8 → List UInt8 → Bool
+/-- lexicographic order on code points; UTF-8 preserves it, so this is HDF5's byte-wise
+`strcmp` order of link names -/
+def codesLE : List Nat → List Nat → Bool
   | [], _ => true
   | _ :: _, [] => false
-  | a :: as, b :: bs => if a < b then true else if b < a then false else bytesLE as bs
+  | a :: as, b :: bs => if a < b then true else if b < a then false else codesLE as bs
 
-def nameLE (a b : String) : Bool := bytesLE a.toUTF8.toList b.toUTF8.toList
+def nameLE (a b : String) : Bool := codesLE (a.toList.map Char.toNat) (b.toList.map Char.toNat)
 
 /-- insert a new link into a group (name order); `none`: the name already exists -/
 def h5Insert (name : String) (item : H5) : List (String × H5) → Option (List (String × H5))
@@ -52,6 +54,13 @@ def scalarItem : Val → Option (DType × Bytes)
   | .npscalar dt d => some (dt, d)
   | _ => Option.none
 
+def strOf? : Val → Option String | .str s => some s | _ => Option.none
+
+/-- a pair of strings (one `edges` row) -/
+def strPair? : Val → Option (List String)
+  | .tuple [.str a, .str b] | .list [.str a, .str b] => some [a, b]
+  | _ => Option.none
+
 /-- `create_dataset(k, data=v)` for the generic `else` branch and the explicit branches of
 `write_recursive`; `none` stands for the exception h5py / numpy raises -/
 def h5Create (v : Val) : Option DsetVal :=
@@ -67,13 +76,10 @@ def h5Create (v : Val) : Option DsetVal :=
   | .tuple xs | .list xs =>
       if xs.isEmpty then some (.num DType.float64 [0] [])
       else if xs.all isStrVal then
-        some (.strs [xs.length] (xs.filterMap fun x => match x with | .str s => some s | _ => Option.none))
+        some (.strs [xs.length] (xs.filterMap strOf?))
       else
         -- rows of strings (the `edges` list of pairs)
-        let rows := xs.filterMap fun x => match x with
-          | .tuple ys | .list ys => if ys.all isStrVal && ys.length == 2 then
-              some (ys.filterMap fun y => match y with | .str s => some s | _ => Option.none) else Option.none
-          | _ => Option.none
+        let rows := xs.filterMap strPair?
         if rows.length == xs.length then some (.strs [xs.length, 2] rows.flatten)
         else
           -- a flat homogeneous numeric sequence
